@@ -113,6 +113,15 @@ func script(seed int64, idx int) {
 			e := s.Emit(s.Core, b, tx, 0, alphsim.FieldsOf(in), in, class)
 			s.TxBlock[tx] = b.Hash
 			expected = append(expected, e)
+		case "good-two-in-one-tx":
+			// one transaction publishes two messages: the node reports both under the same block hash, transaction id and
+			// event index, and a page boundary may fall between them
+			for k := 0; k < 2; k++ {
+				in := wIntent(w, "transfer", uint8(lrng.Intn(3)))
+				e := s.Emit(s.Core, b, tx, 0, alphsim.FieldsOf(in), in, fmt.Sprintf("%s(%d of 2)", class, k+1))
+				expected = append(expected, e)
+			}
+			s.TxBlock[tx] = b.Hash
 		case "foreign-sender":
 			in := wIntent(w, "foreign-sender", uint8(lrng.Intn(3)))
 			s.Emit(s.Core, b, tx, 0, alphsim.FieldsOf(in), in, class)
@@ -135,7 +144,7 @@ func script(seed int64, idx int) {
 		}
 		hostile = append(hostile, class)
 	}
-	classes := []string{"good-transfer", "good-transfer", "good-attest", "good-boundary", "foreign-sender", "foreign-attest-bad-token", "foreign-attest-short", "malformed", "malformed"}
+	classes := []string{"good-transfer", "good-transfer", "good-attest", "good-boundary", "good-two-in-one-tx", "foreign-sender", "foreign-attest-bad-token", "foreign-attest-short", "malformed", "malformed"}
 	// stepLiveness: every expected message that is already confirmable (block height + consistency level <=
 	// current height) must have been forwarded once the watcher is quiescent; re-checked after further
 	// quiescent periods before it is reported.
@@ -502,5 +511,5 @@ func main() {
 	}
 	r.Assume("liveness restated as bounded progress: after the last mutation the simulator keeps answering and within 6 further completed poll rounds every well-formed token-bridge event of a main-chain block whose confirmation conditions hold must have been forwarded exactly once",
 		"all block timestamps are ~100 days old so that no wall-clock floor delays a delivery", "no API faults are injected while messages are pending (only token-metadata calls of attacker-named contracts misbehave); half of the scripts end with one failed current-count request when nothing is pending, i.e. a supervisor restart of the watcher")
-	r.Finish("evaluations", "scripts_distinct", "page limits {1,2,3,100}; batches of 1-5 events per block mixing well-formed token-bridge transfers/attestations (incl. target chain 65535, consistency 255, sequence near 2^64) with foreign-sender events, attestation-shaped events naming contracts whose metadata calls fail or answer oddly in eleven ways (HTTP error, two results, single methods failed, wrong value types, over-long values, a succeeded call with no or with two return values), and twelve kinds of malformed events; 0/1/page/page+1 further events appended between the count answer and the first page answer and before the second page; distinct non-trivial = distinct script traces", 20)
+	r.Finish("evaluations", "scripts_distinct", "page limits {1,2,3,100}; batches of 1-5 events per block mixing well-formed token-bridge transfers/attestations (incl. target chain 65535, consistency 255, sequence near 2^64, two messages published by one transaction) with foreign-sender events, attestation-shaped events naming contracts whose metadata calls fail or answer oddly in eleven ways (HTTP error, two results, single methods failed, wrong value types, over-long values, a succeeded call with no or with two return values), and twelve kinds of malformed events; 0/1/page/page+1 further events appended between the count answer and the first page answer and before the second page; distinct non-trivial = distinct script traces", 20)
 }
